@@ -194,6 +194,23 @@ def gen_qe_select(r):
                      "arg" if char is None else "both"))
 
 
+def gen_qe_map(r):
+    """conversion_with_qe_map: one efficiency per pixel"""
+    shape = r.choice(SHAPES)
+    samp = r.random() < 0.5
+    if r.random() < 0.6:
+        ph, fk = gen_photon_frame(r, shape)
+    else:
+        ph, fk = gen_frame(r, shape, hi=r.choice([5, 50, 3000]), bits=2)
+    qs = [gen_q(r, samp) if samp else r.choice([0.0, 1.0, 0.5, 2.0 ** -6, r.randrange(0, 257) / 256])
+          for _ in range(shape[0] * shape[1])]
+    bad = r.random() < 0.1
+    if bad:
+        qs[r.randrange(len(qs))] = r.choice([1.25, -0.25, 2.0])
+    return dict(kind="qe", sampling=samp, qs=qs, photon=ph, seed=r.randrange(1 << 30), det=r.choice(["ccd", "cmos"]),
+                path="map", fk=fk, map_in_range=not bad)
+
+
 def gen_fullwell_sources(r):
     """both capacity sources, in every order relation: argument < / = / > characteristics, zero, absent"""
     shape = r.choice(SHAPES)
@@ -432,6 +449,7 @@ def gen_cdm(r, exact=False, contrast=None):
 
 GENS = [("collect", gen_collect, 24, 80), ("collectp", gen_collectp, 36, 160),
         ("qe", gen_qe, 30, 140), ("qe_frac", gen_qe_frac, 30, 140), ("qe_select", gen_qe_select, 36, 140),
+        ("qe_map", gen_qe_map, 24, 120),
         ("fullwell", gen_fullwell, 24, 100), ("fullwell_sources", gen_fullwell_sources, 40, 160),
         ("kernel", gen_kernel, 60, 240), ("ipc", gen_ipc, 40, 160), ("persist", gen_persist, 110, 700),
         ("cdm", gen_cdm, 70, 300), ("cdmx", lambda r: gen_cdm(r, exact=True), 40, 160)]
@@ -478,6 +496,68 @@ def exhaustive_persist():
     return cases
 
 
+def exhaustive_small_scope():
+    """Thorough tier: small scopes enumerated completely (no random choice)."""
+    import itertools
+    cases = []
+    # collection: every sequence of 1..3 container operations over {array, particles} on a 2x2 detector; the
+    # particles of the k-th particle operation visit every pixel, at the pixel edge and at its centre
+    arr = [[1.0, 2.5, 0.0, 40.0], [0.0, 0.0, 7.25, 0.0], [3.0, 0.0, 0.0, 0.5]]
+    for n in (1, 2, 3):
+        for held in itertools.product("AP", repeat=n):
+            for off in (0.0, 0.5):
+                ops, na, npart = [], 0, 0
+                for ch in held:
+                    if ch == "A":
+                        ops.append(dict(op="array", a=arr[na]))
+                        na += 1
+                    else:
+                        ps = [[(i + off) * 10.0, (j + off) * 8.0, float(100 * npart + 10 * i + j + 1)]
+                              for i in range(2) for j in range(2)]
+                        ops.append(dict(op="particles", ps=ps + [ps[npart]]))
+                        npart += 1
+                cases.append(dict(kind="collectp", det="ccd", shape=[2, 2], sv=10.0, sh=8.0,
+                                  pixel=[[5.0, 0.0], [0.25, 1000.0]], ops=ops, held="".join(held), fk="exhaustive"))
+    # full well: both capacity sources in every relation, pixels at and around both values
+    x = [[0.0, 49.75, 50.0, 50.25, 99.75, 100.0, 100.25, 149.75, 150.0, 150.25, 1000.0]]
+    for arg in (None, 0.0, 50.0, 100.0, 150.0, -1.0):
+        for char in (None, 0.0, 50.0, 100.0, 150.0):
+            rel = ("neither" if arg is None and char is None else "char only" if arg is None else "arg<0" if arg < 0
+                   else "arg only" if char is None else "arg=0" if arg == 0 else "char=0" if char == 0
+                   else "arg<char" if arg < char else "arg=char" if arg == char else "arg>char")
+            cases.append(dict(kind="fullwell", path="sources", arg=arg, char=char, x=x, det="ccd", rel=rel,
+                              fk="exhaustive"))
+    # photo-conversion: efficiency source x value x sampling on a frame of fractional photon counts
+    ph = [[0.0, 0.25, 0.5, 0.75, 1.0, 1.5, 2.75, 100.5]]
+    for arg in (None, 0.0, 2.0 ** -6, 0.5, 1.0 - 2.0 ** -10, 1.0, 1.5, -0.25):
+        for char in (None, 0.0, 0.25, 1.0):
+            for samp in (False, True):
+                cases.append(dict(kind="qe", sampling=samp, arg=arg, char=char, photon=ph, seed=len(cases), det="ccd",
+                                  path="select", fk="exhaustive",
+                                  src=("none" if arg is None and char is None else "char" if arg is None else
+                                       "arg" if char is None else "both")))
+    # CDM: a bright packet at every position of a line of 3..5 packets on three backgrounds, both directions,
+    # one and two trap species, two parameter vectors with heavy trapping and slow release
+    pars = [dict(beta=0.3, fwc=100000.0, vg=1.0e-10, t=1.0e-3, tr=[0.03, 0.3], nt=[2.0e12, 1.0e12],
+                 sigma=[1.0e-15, 5.0e-16]),
+            dict(beta=1.0, fwc=10000.0, vg=1.62e-10, t=9.4722e-4, tr=[0.5, 0.005], nt=[5.0e11, 4.0e12],
+                 sigma=[2.0e-14, 1.0e-15])]
+    for length in (3, 4, 5):
+        for pos in range(length):
+            for bg in (0.0, 1.0, 30.0):
+                for direction in ("parallel", "serial"):
+                    for nsp in (1, 2):
+                        for pv in pars:
+                            line = [bg] * length
+                            line[pos] = 60000.0
+                            fr = [[v] for v in line] if direction == "parallel" else [line]
+                            cases.append(dict(kind="cdm", direction=direction, frame=fr, fk="exhaustive", exact=False,
+                                              beta=pv["beta"], fwc=pv["fwc"], vg=pv["vg"], t=pv["t"], vth=1.0e7,
+                                              tr=pv["tr"][:nsp], nt=pv["nt"][:nsp], sigma=pv["sigma"][:nsp],
+                                              path="func"))
+    return cases
+
+
 def gen_cases(ctx: Ctx, salt="cases", scale=1.0):
     r = ctx.rng(salt)
     cases = list(corpus_cases()) if salt == "cases" else []
@@ -492,7 +572,7 @@ def gen_cases(ctx: Ctx, salt="cases", scale=1.0):
     for _ in range(ctx.budget(6, 30)):
         cases.append(gen_cdm(r, contrast=True))
     if not ctx.quick and salt == "cases":
-        cases += exhaustive_persist()
+        cases += exhaustive_persist() + exhaustive_small_scope()
     order = {"collect": 0, "collectp": 0, "qe": 1, "fullwell": 2, "kernel": 3, "ipc": 4, "persist": 5, "cdm": 6}
     cases.sort(key=lambda c: order[c["kind"]])   # contiguous kinds: a worker compiles few numba functions
     return cases
@@ -521,6 +601,9 @@ def emit_case(c, o) -> str:
                 ops.append(f"OpParticles {ps}")
         return (f"KCollectP {core.cnat(c['shape'][0])} {core.cnat(c['shape'][1])} {q(c['sv'])} {q(c['sh'])} "
                 f"{ql(flat(c['pixel']))} {core.clist(ops)} {ql([] if bad else o['out'])}")
+    if k == "qe" and c["path"] == "map":
+        out = "None" if bad else f"(Some {ql(o['out'])})"
+        return f"KQeMap {core.cbool(c['sampling'])} {ql(c['qs'])} {ql(flat(c['photon']))} {out}"
     if k == "qe" and c["path"] == "select":
         out = "None" if bad else f"(Some {ql(o['out'])})"
         return (f"KQeSel {core.cbool(c['sampling'])} {qopt(c['arg'])} {qopt(c['char'])} {ql(flat(c['photon']))} {out}")
@@ -595,6 +678,8 @@ def classify(c, o, as_modelled: bool):
     k = c["kind"]
     if k == "fullwell" and c["path"] == "sources":
         return "fullwell_sources", dict(kind=k, relation=c["rel"], raised=("raise" in o)), None
+    if k == "qe" and c["path"] == "map":
+        return "qe_map", dict(kind=k, sampling=c["sampling"], raised=("raise" in o), map_in_range=c["map_in_range"]), None
     if k == "qe" and c["path"] == "select":
         return "qe_sources", dict(kind=k, sampling=c["sampling"], source=c["src"], raised=("raise" in o),
                                   arg_zero=(c["arg"] == 0)), None
@@ -821,6 +906,8 @@ def run(ctx: Ctx):
             ctx.dist("qe_path", c["path"] + ("/sampling" if c["sampling"] else "/product"))
             if c["path"] == "select":
                 ctx.dist("qe_source", c["src"])
+            elif c["path"] == "map":
+                ctx.dist("qe_map", "in range" if c["map_in_range"] else "out of range")
             else:
                 qv = c["q"]
                 ctx.dist("qe_value", "0" if qv == 0 else "1" if qv == 1 else "1/2" if qv == 0.5 else
@@ -849,7 +936,12 @@ def run(ctx: Ctx):
     ctx.cov["exhaustive"] = (not ctx.quick)
     if not ctx.quick:
         ctx.cov["exhaustive_scope"] = ("persistence, 1 and 2 species: densities {0,1/2,1} x time factors {1/2,1,2} x "
-                                       "capacities {none,4} x pixel {0,100} x initial trapped {0,40} per species")
+                                       "capacities {none,4} x pixel {0,100} x initial trapped {0,40} per species; "
+                                       "collection: every sequence of 1..3 container operations over {array, particles} "
+                                       "x particle offset {edge, centre} on 2x2; full well: argument {none,0,50,100,150,-1} "
+                                       "x characteristics {none,0,50,100,150}; photo-conversion: argument (8 values) x "
+                                       "characteristics (4) x sampling; CDM: bright packet at every position of lines of "
+                                       "3..5 packets x background {0,1,30} x direction x {1,2} species x 2 parameter vectors")
         ok, out = core.coqchk(ctx, "PyxelGen.C15_prop")
         ctx.cov["coqchk"] = "ok" if ok else core.tail(out, 6)
         if not ok:
